@@ -56,7 +56,8 @@ func c20Matrix(c *core.Ctx) {
 	var ctx context.Context
 	var cancel context.CancelFunc
 	if cancelMode == "deadline" {
-		ctx, cancel = context.WithTimeout(context.Background(), time.Duration(200+c.Rng.IntN(1500))*time.Microsecond)
+		// (a deadline a fraction of a tick, a few ticks or many ticks away)
+		ctx, cancel = context.WithTimeout(context.Background(), core.Pick(c.Rng, time.Duration(200+c.Rng.IntN(1500))*time.Microsecond, time.Duration(5+c.Rng.IntN(25))*time.Millisecond))
 	} else {
 		ctx, cancel = context.WithCancel(context.Background())
 	}
@@ -124,6 +125,11 @@ func c20Matrix(c *core.Ctx) {
 		}
 		if !ok {
 			o.closed = true
+			// closed: either the count-th value has been delivered or the context is cancelled (read AFTER the
+			// close was observed: a context that is live now was live when the channel was closed)
+			if o.total < count && ctx.Err() == nil {
+				c.Violate("closed-early", "the channel was closed after %d of %d values while the context is still live; %s", o.total, count, desc)
+			}
 			break
 		}
 		o.total++
